@@ -21,7 +21,10 @@ RULE = ("the C06 fits on the whole data set (every pre-set model, polynomial deg
         "every numeric type that represents it exactly and the uncertainties through every route "
         "that writes them; y (and x) points recorded as repeated measurements, whose uncertainty is "
         "the error on the mean / the standard deviation / the propagated error as chosen on the "
-        "point; generating parameters and guess on a mirrored or negative branch), 4 evaluation points each plus "
+        "point; generating parameters and guess on a mirrored or negative branch; FITTED PARAMETERS "
+        "THAT ARE EXACTLY EQUAL AS FLOATS (all, two of three, equal up to the sign: polynomial user "
+        "models, noise-free data on an exact grid, the exact guess); rejected requests sent with the "
+        "caller's data objects before the fit), 4 evaluation points each plus "
         "the smallest and largest abscissa of the data, evaluated as scalars (float, numpy float, "
         "int, Fraction, numpy integers / float32 where exact), as a list (of floats, of typed "
         "numbers) and as an array, BEFORE AND AFTER a history (a returned value switched to "
@@ -103,6 +106,17 @@ def gen_cases(ctx, n):
     cases += C6.signed_cases(ctx.rng, want_range=False)
     # user models as every kind of callable under every kind of name (C06's class (6), a third)
     cases += C6.callable_cases(ctx.rng, want_range=False, every=3)
+    # fitted parameters that are EXACTLY equal as floats (fitgen EQUAL NOTES): all of them, two of
+    # three, equal up to the sign; they are different quantities with the fit's covariance
+    k = 0
+    for fam in G.POLY_LIKE:
+        for variant in ("all", "pair", "negated", "all"):
+            cases.append(G.gen_equal_params(ctx.rng, family=fam, variant=variant,
+                                            form=G.FORMS[k % len(G.FORMS)],
+                                            sy=("common", "point")[k % 2]))
+            k += 1
+    # rejected requests sent with the caller's data objects before the fit (C06's class (7), a part)
+    cases += C6.fault_cases(ctx.rng, want_range=False, every=5)
     n0 = len(G.corpus(ID))
     # HISTORIES between two rounds of evaluating fit_function (every model family and every form
     # gets one with the result drawn on a plot; the others get one without a plot half of the time)
@@ -135,6 +149,9 @@ def gen_cases(ctx, n):
                                     want_range=False, noise_free=False, sy="yzeros"))
             continue
         t = ctx.rng.random()
+        if t < 0.04:
+            cases.append(G.gen_equal_params(ctx.rng))
+            continue
         if t < 0.10:
             cases.append(G.gen_typed(ctx.rng, want_range=False))
             continue
@@ -183,5 +200,11 @@ def replay(ctx, rp):
     if not c:
         return {"fails": False, "note": "replay file carries no concrete input", "payload": rp}
     r = X.run_c07(ctx, [c])
+    # a change to a regenerated table moves the model along with the library: the replay is judged
+    # by the reference driver (tables the theorems were last proved for) as well, as search() does
+    try:
+        r["failures"] += X.run_c07(ctx, [c], ref=True)["failures"]
+    except Exception:  # noqa: BLE001  (reference driver unavailable)
+        pass
     fs, _ = X.closed_form_search(ctx, [c])
     return {"fails": bool(r["failures"] or fs), "failures": r["failures"] + fs}
